@@ -143,8 +143,10 @@ def ref_method(recv: T.Any, name: str, raw_args: T.List[T.Any], kwargs: T.Dict[s
             if not all(isinstance(a, (bool, int, str)) for a in args):
                 return None                      # containers: printed form is not specified by the method's docs
             strs = [a if isinstance(a, str) else ('true' if a else 'false') if isinstance(a, bool) else str(a) for a in args]
-            if any(int(m) >= len(strs) for m in re.findall(r'@([0-9]+)@', s)) or not ascii_only(s):
+            if not ascii_only(s):
                 return None
+            if any(int(m) >= len(strs) for m in re.findall(r'@([0-9]+)@', s)):
+                return ERROR                     # "replacing placeholders ... with the corresponding argument": there is none
             return ('ok', re.sub(r'@([0-9]+)@', lambda m: strs[int(m.group(1))], s))
         if name == 'replace':
             c = sig(['str', 'str'])
